@@ -60,7 +60,13 @@ impl Fault {
                 "decl" => "F15-insert-declaration",
                 _ => "F9-insert-foreign-lines",
             },
-            Fault::ReplaceLines { .. } => "F12-token-soup",
+            Fault::ReplaceLines { text, .. } => {
+                if text.contains(" as start") {
+                    "F19-start-through-import"
+                } else {
+                    "F12-token-soup"
+                }
+            }
             Fault::ReplaceRange { what, .. } => match what.as_str() {
                 "literal" => "F17-swap-literal",
                 _ => "F16-rename-identifier",
